@@ -16,7 +16,7 @@ WRAPPERS = [("f'", "'"), ("f'''", "'''"), ("rf'", "'"), ('F"', '"')]
 EXPRS = ['a', 'a.b', 'a[0]', 'a["k"]', 'a[1:2]', 'a == b', 'a != b', 'a < b', '(a := 1)', '(lambda: 1)', '(lambda x: x)(1)', '{1: 2}[1]', '{1, 2}', '[x for x in a]', 'a if b else c',
          '"s"', '"""t"""', 'not a', '-a', 'a or b', 'f(a, b=1)', '(a, b)', 'a,', '*a, b', 'yield', 'await a', '3.', '1_0', "b'x'", 'a is not b', 'a  ', '  a', '(a)', '((a))', 'é', '名[é]', '(a),(b)', '(a)+(b)', '(a)for a in (b)', '(a)if(b)else(c)', '(a).b(c)', 'a["é"]', '"é€"', '(a)\n+(b)']
 CONVS = ['', '!r', '!s', '!a', ' !r', '!r ']
-SPECS = ['', ':', ':x', ':>10', ':{w}', ':{w}.{p}', ':>{w}x', ':{w!r}', ':{w:{p}}', ':é', ': ', ':}}', ':{{', ':\\n', ':\\x41', ':!r', '::', ':=', ':{{1:2}[1]}', ':{ {1:2}[1]}', ':{w}.{{2}.pop()}f', ':{{{w}}}']
+SPECS = ['', ':', ':x', ':>10', ':{w}', ':{w}.{p}', ':>{w}x', ':{w!r}', ':{w:{p}}', ':é', ': ', ':}}', ':{{', ':\\n', ':\\x41', ':!r', '::', ':=', ':aé', ':aé{w}', ':{{1:2}[1]}', ':{ {1:2}[1]}', ':{w}.{{2}.pop()}f', ':{{{w}}}']
 EQS = ['', '=', ' = ', '= ', ' =', '=\t', '=\n', '= \x0c']
 PIECES = [('', ''), ('x', 'y'), ('{{', '}}'), ('\\n', '\\t'), ('é', '名'), ('\\101', '\\0'), ('\\N{DASH}\\u00e9', '\\33[0m')]
 
